@@ -75,14 +75,14 @@ PROPS = {
         level="exploration",
         rule=("fixed matrix, executed completely in both tiers: file length 0..8 x {no BOM, BOM, partial BOM} x {no fault, 1-byte short reads, "
               "EINTR} x {eval_file, use} = 162 cases; then seeded random histories of <=12/16 operations (write/delete files, eval_file and "
-              "use from C++ and from script, get_state / set_state between them) over <=4 file names in <=3 directories with permuted search paths, bodies with BOM / double BOM / "
+              "use from C++ and from script, get_state / set_state between them, directories carrying the name of a script) over <=4 file names in <=3 directories with permuted search paths, bodies with BOM / double BOM / "
               "CRLF / shebang / trailing NULs / nested and cyclic use() / syntax errors, with per-operation short reads, EINTR and failing opens "
               "injected by the simulated file layer. distinct = hash of the operation list and search path; non-trivial = at least one file "
               "API operation. Oracle: twin engine evaluating the same bytes with eval(), driven by a model of search path + used-file set."),
         real_vs_stub=REAL + " file layer: fopen/fopen64/read of files under the run directory are interposed (faults); the files themselves are real.",
         assumptions=COMMON_ASSUME + ["hard I/O errors (EIO, ENOSPC) are not injected: the property says nothing about them",
                                      "a used file counts as used from the start of its evaluation and stops counting if that evaluation fails (mirrors the engine after the fix)"],
-        expected_probes=["fault_short_read", "fault_eintr", "fault_open_fail", "probe_file_shorter_than_bom", "probe_file_not_found", "probe_lookup_by_absolute_name", "fault_state_restored_between_file_operations"],
+        expected_probes=["fault_short_read", "fault_eintr", "fault_open_fail", "probe_file_shorter_than_bom", "probe_file_not_found", "probe_lookup_by_absolute_name", "fault_state_restored_between_file_operations", "probe_directory_named_like_a_script"],
         **two(30, 300,
               {"plain": {"workers": 8, "fixed": True}, "asan": {"workers": 8, "fixed": True}},
               {"plain": {"workers": 8, "fixed": True}, "asan": {"workers": 8, "fixed": True}}),
@@ -120,7 +120,7 @@ PROPS = {
               "chain operation, each function and global also through long-lived script functions defined before the first snapshot."),
         real_vs_stub=REAL,
         assumptions=COMMON_ASSUME + ["one conversion-free loadable module is exercised; a module that registers a conversion is known finding C15-K1 and only replayed",
-                                     "globals are created, never mutated after creation: a snapshot shares Boxed_Value data with the live table by design, so only presence and identity are compared",
+                                     "globals are created and read, not assigned again: a snapshot shares each global's value with the live engine, so a value assigned after the snapshot survives a restore - known finding C15-K2, replayed on every run",
                                      "user conversions are documented as not part of State and are not generated"],
         expected_probes=["fault_state_restore", "probe_restored_older_than_latest_snapshot", "probe_background_eval_overlapped_chain_op", "fault_throw_mid_eval", "probe_background_use_overlapped_chain_op", "probe_two_part_file_checked", "probe_background_type_registration", "probe_binary_module_loaded"],
         **two(40, 420,
